@@ -171,7 +171,7 @@ Definition go_modbus_Float32ToRegsSwapWords : sfunc := {| sf_name := "modbus.Flo
  TStore "ret" (XBin OAdd (TS 64) (XBin OMul (TS 64) (XVar "i") (XConst 2%Z)) (XConst 1%Z)) (XGetBE 16%Z "buf" (XConst 0%Z) None)];
  TReturn "ret"] |}.
 Definition go_modbus_CheckRtuCrc : sfunc := {| sf_name := "modbus.CheckRtuCrc"; sf_params := [("packet", (TU 8))]; sf_body :=
- [TIf (XBin OLt TBool (XLen "packet") (XConst 3%Z))
+ [TIf (XBin OLt TBool (XLen "packet") (XConst 4%Z))
  [TReturnIntErr (XConst 0%Z) "ErrNotEnoughData"]
  [];
  TDecl "crcCalc" (TU 16) (XCall go_modbus_RtuCrc "packet" (XConst 0%Z) (Some (XBin OSub (TS 64) (XLen "packet") (XConst 2%Z))));
